@@ -56,6 +56,11 @@ class Entry:
         self.name = name
 
 
+FILE_TYPES = [statmod.S_IFREG, statmod.S_IFREG, statmod.S_IFSOCK, statmod.S_IFBLK, statmod.S_IFCHR, statmod.S_IFIFO, statmod.S_IFLNK]
+FILE_PERMS = [0o644, 0o755, 0o4755, 0o000, 0o600]
+DIR_PERMS = [0o755, 0o1777, 0o2755, 0o700]
+
+
 class VFS:
     """stat/listdir over a tree, with a call log and an optional hook called before every call:
     hook(vfs, index, op, rel) may raise OSError or mutate vfs.tree."""
@@ -79,7 +84,11 @@ class VFS:
         if rel not in self.tree:
             raise FileNotFoundError(errno.ENOENT, os.strerror(errno.ENOENT), path)
         kind, ino, dev, mtime, size = self.tree[rel]
-        mode = (statmod.S_IFDIR | 0o755) if kind == "d" else (statmod.S_IFREG | 0o644)
+        # "not a directory" comes in every file type, and both kinds with unusual permission bits (by inode number)
+        if kind == "d":
+            mode = statmod.S_IFDIR | DIR_PERMS[ino % len(DIR_PERMS)]
+        else:
+            mode = FILE_TYPES[ino % len(FILE_TYPES)] | FILE_PERMS[ino % len(FILE_PERMS)]
         return SimpleNamespace(st_ino=ino, st_dev=dev, st_mode=mode, st_mtime=mtime, st_size=size)
 
     def listdir(self, path):
